@@ -24,6 +24,8 @@ F_COLUMN_NONE = 'F34'
 F_DELETED_TARGET = 'F35'
 F_RETYPE_COLUMN = 'F41'
 F_STALE_COLUMN = 'F47'
+F_CHECK_AS_INDEX = 'F54'
+F_RENAME_NAMING = 'F56'
 
 
 def rebuilt_tables(trace):
@@ -69,7 +71,44 @@ def renamed_columns(muts):
     return out
 
 
-def classify(evolved, fresh, rebuilt, muts):
+def rename_and_index_in_one(muts):
+    """one ChangeField that gives the column a new name AND changes db_index/unique: the index statement of
+    that same mutation is generated against the column name the bookkeeping still has (F18)"""
+    return any(m['t'] == 'ChangeField' and any(a == 'db_column' for a, _ in m['attrs']) and
+               any(a in ('db_index', 'unique') for a, _ in m['attrs']) for m in muts)
+
+
+def rename_with_naming(muts):
+    """a RenameField in the same batch as another naming change of the same field: a second rename of it, a
+    ChangeField of its db_column/db_table, or an explicit db_column/db_table on the rename after such a change
+    (the optimiser folds these together and applies the names in the wrong order, finding F56)"""
+    for i, m1 in enumerate(muts):
+        if m1['t'] != 'RenameField':
+            continue
+        names = {m1['old'], m1['new']}
+        for j, m2 in enumerate(muts):
+            if i == j or m2.get('model') != m1['model']:
+                continue
+            if m2['t'] == 'RenameField' and ({m2['old'], m2['new']} & names):
+                return True
+            if m2['t'] == 'ChangeField' and m2['field'] in names and \
+                    any(a in ('db_column', 'db_table') for a, _ in m2['attrs']):
+                return True
+    return False
+
+
+def index_name_collision(muts):
+    """a field is renamed away and a new field takes its old name: SQLite keeps the index under the name
+    derived from the old column, and the new field's default index name collides with it (F18 family)"""
+    for i, m1 in enumerate(muts):
+        if m1['t'] == 'RenameField':
+            for m2 in muts[i + 1:]:
+                if m2['t'] == 'AddField' and m2['model'] == m1['model'] and m2['field'] == m1['old']:
+                    return True
+    return False
+
+
+def classify(evolved, fresh, rebuilt, muts, stepwise=False):
     """-> list of (finding id or None, text) for every difference between evolved and fresh"""
     out = []
     renames = any(m['t'] == 'RenameModel' for m in muts)
@@ -116,7 +155,13 @@ def classify(evolved, fresh, rebuilt, muts):
                     set(ix[0]) & renamed_columns(muts):
                 out.append((F_STALE_COLUMN, '%s: table-level index %s is not dropped by ChangeMeta after one of its '
                             'columns was renamed in the same run' % (t, ix[0])))
-            elif not multi and (rb or idx_touch or renames):
+            elif not multi and kind == 'missing' and (ix[0][0] + '>=0') in f['checks'] and any(
+                    m['t'] == 'ChangeField' and any(a == 'db_index' and v == 'true' for a, v in m['attrs']) for m in muts):
+                out.append((F_CHECK_AS_INDEX, '%s: no index is created for %s: the scanned DatabaseState lists the column\'s '
+                            'CHECK constraint as an index, so create_index() thinks one exists' % (t, ix[0])))
+            elif not multi and (rb or ((idx_touch or renames) and (not stepwise or rename_and_index_in_one(muts)))):
+                # one mutation at a time with the bookkeeping re-scanned before each, only a rebuild can lose or
+                # keep a single-column index wrongly; in a batched run the stale in-memory bookkeeping can too
                 out.append((F_SINGLE_INDEX, '%s: single-column index %s %s after a rebuild / index change / rename'
                             % (t, ix[0], kind)))
             else:
@@ -140,6 +185,9 @@ def crash_finding(exc, muts, rebuilt):
         return F_DELETED_TARGET, msg
     if any(m['t'] == 'ChangeField' and m.get('ftype') for m in muts) and 'has no column named' in str(exc):
         return F_RETYPE_COLUMN, msg
+    if 'This index already exists' in str(exc) or ('already exists' in str(exc) and 'index' in str(exc).lower()):
+        if index_name_collision(muts):
+            return F_SINGLE_INDEX, msg
     if isinstance(exc, AssertionError):
         # change_column_attr_unique asserts that the unique index it is about to drop is known: after a
         # RenameField of that very field the bookkeeping still names the old column (F18)
@@ -334,13 +382,16 @@ def run(ctx):
                 ctx.count('%s:crash' % mode)
                 if fid == 'data':
                     continue
-                if mode == 'batched' and 'error' not in res['stepwise'] and \
-                        (name_reuse(muts) or touches_renamed_model(muts)):
+                step_known = 'error' not in res['stepwise'] or \
+                    crash_finding(res['stepwise']['error'], muts, res['stepwise']['rebuilt'])[0] is not None
+                if mode == 'batched' and step_known and (name_reuse(muts) or touches_renamed_model(muts)):
                     fid = fid or F_OPT
+                if mode == 'batched' and step_known and fid is None and rename_with_naming(muts):
+                    fid = F_RENAME_NAMING
                 item = (fid, 'executing the generated SQL fails (%s run): %s' % (mode, msg))
                 found.setdefault(item[0] if item[0] else ('V', item[1][:80]), (item, dict(rep, mode=mode)))
                 continue
-            diffs = classify(r['schema'], fresh, r['rebuilt'], muts)
+            diffs = classify(r['schema'], fresh, r['rebuilt'], muts, stepwise=(mode == 'stepwise'))
             # frame: untouched tables are exactly as they were
             for t in untouched_tables(spec, muts):
                 if t in r['before'] and r['schema'].get(t) != r['before'][t] and t not in r['rebuilt']:
@@ -349,9 +400,14 @@ def run(ctx):
             for fid, text in diffs:
                 if fid is None and mode == 'batched' and 'schema' in res['stepwise'] and \
                         not any(f is None for f, _ in classify(res['stepwise']['schema'], fresh,
-                                                               res['stepwise']['rebuilt'], muts)) and \
+                                                               res['stepwise']['rebuilt'], muts, stepwise=True)) and \
                         (name_reuse(muts) or touches_renamed_model(muts) or initial_rollup(muts)):
                     fid = F_OPT      # only the optimised run is off, in a way C03's findings explain
+                elif fid is None and mode == 'batched' and 'schema' in res['stepwise'] and \
+                        not any(f is None for f, _ in classify(res['stepwise']['schema'], fresh,
+                                                               res['stepwise']['rebuilt'], muts, stepwise=True)) and \
+                        rename_with_naming(muts):
+                    fid = F_RENAME_NAMING
                 key = fid if fid else ('V', text[:80])
                 found.setdefault(key, ((fid, text), dict(rep, mode=mode)))
         ctx.case({'mutations': [sigs.model_mutation(m) for m in muts], 'hinted': hinted},
